@@ -16,6 +16,7 @@ mod minmaxchk;
 mod numchk;
 mod histchk;
 mod errchk;
+mod lawchk;
 
 fn main() {
     let args: Vec<String> = std::env::args().collect();
@@ -42,6 +43,8 @@ fn main() {
         "means" => numchk::means(&mut cfg, &mut rep),
         "histogram" => histchk::histogram(&mut cfg, &mut rep),
         "errors" => errchk::errors(&mut cfg, &mut rep),
+        "qlaws" => lawchk::qlaws(&mut cfg, &mut rep),
+        "layouts" => lawchk::layouts(&mut cfg, &mut rep),
         "nanview" => nanchk::nanview(&mut cfg, &mut rep),
         _ => {
             eprintln!("unknown enumeration {}", name);
